@@ -63,6 +63,11 @@ func AuditWrites(w *World, events []Event) *pbt.Failure {
 				// (The file name is not compared with the record's module: a server that answers with another
 				// genuine record gets it cached under the requested name. That is authenticated data, which is
 				// all the property demands; a later lookup re-validates it and returns no lines.)
+				if len(head) == 0 {
+					// a response cut right after the record: the client treats the missing note as the empty
+					// timeline and authenticates the record against its own head; nothing unauthenticated is stored
+					continue
+				}
 				n, hash, ok := w.OpenHead(head)
 				inA, inB := w.WhichLogs(n, hash)
 				// (The cached head need not contain the record: a server may attach an older genuine head, and the
